@@ -1064,6 +1064,10 @@ func (env *SpecEnv) callExpr(e *SExpr) SVal {
 			}
 		case "dv":
 			vc.needStr, vc.needDigits, rs = true, true, sortReal
+		case "is_int":
+			rs = sortBool
+		case "dvalid":
+			vc.needStr, vc.needDigits, rs = true, true, sortBool
 		case "dpow10":
 			vc.needStr, vc.needDigits, rs = true, true, sortInt
 		case "beval":
@@ -1368,6 +1372,28 @@ func (env *SpecEnv) callExpr(e *SExpr) SVal {
 		}
 		vw := env.view(x)
 		return SVal{T: vc.bytesOf(vw.Arr, vw.Off, vw.Len)}
+	case "visited":
+		// visited(k): in an invariant of a loop ranging over a map, key k has already been produced by the iteration
+		if env.fr == nil || env.atBlock == nil || len(e.Args) != 1 {
+			env.fail("visited(k) is only meaningful in the invariant of a map range loop")
+		}
+		for _, ins := range env.atBlock.Instrs {
+			nx, ok := ins.(*ssa.Next)
+			if !ok || nx.IsString {
+				continue
+			}
+			it := vc.operand(env.fr, env.st, nx.Iter).T
+			rs, comp := vc.iters[it.S], vc.iterComp[it.S]
+			if rs == nil || comp == "" {
+				break
+			}
+			k := env.coerce(env.eval(e.Args[0]), rs.mapT.Key())
+			r := tSelect(vc.heapGet(env.st.heap, comp), k)
+			r.T = sortBool
+			return SVal{T: r, GoT: types.Typ[types.Bool]}
+		}
+		env.fail("visited(): this loop does not range over a map")
+		return SVal{}
 	case "has":
 		// has(m, k): key k is present in map m
 		m := env.eval(e.Args[0])
